@@ -399,3 +399,8 @@ def b_nidq(B):
             B.case(("nidq", na, nma), not bad, detail=bad[:4])
     finally:
         shutil.rmtree(d, ignore_errors=True)
+
+
+# ----------------------------------------------------------------------------- contracts of dependencies this property rests on (re-checked here)
+from pyvc.api import depends  # noqa: E402
+depends(PROPERTY, "C09", ["derived_scalars", "sample2v_nidq"])      # sync / analog sync channel indices, calibration of the analog lines
